@@ -1,9 +1,12 @@
 from checks.common import Build, Job
+from checks import cross
 
 PROP = "C16"
 BUILDS = [Build("fk_memb", "harness/c16_fork.c", flavor="memb", cds=True), Build("fk_mb", "harness/c16_fork.c", flavor="mb", cds=True),
           Build("fk_qsbr", "harness/c16_fork.c", flavor="qsbr", cds=True),
-          Build("fk_bp", "harness/c16_fork.c", flavor="bp", cds=True, whitebox=True)]
+          Build("fk_bp", "harness/c16_fork.c", flavor="bp", cds=True, whitebox=True),
+          Build("fk_2fl", "harness/c16_fork.c", flavor="memb", cds=True, defines=["-DTWO_FLAVORS"], extra_repo=["urcu-bp.c"])]
+BUILDS = BUILDS + cross.gp_builds()   # cross-property core jobs (checks/cross.py)
 RULE = ("fork() bracketed by call_rcu_before_fork / after_fork_parent / after_fork_child (bp: plus urcu_bp_before_fork / after_fork_*), issued "
         "by the only registered application thread (bp: with 0-2 other readers registered, one of them inside a read-side section across "
         "the fork) while 0-3 callbacks are queued and the default / per-thread / per-CPU call_rcu helpers and the hash-table resize worker "
@@ -64,6 +67,13 @@ def jobs(tier):
                 if b == "fk_bp" and f1 == 1:
                     # another thread creates the process's first AUTO_RESIZE table while the forking thread is inside its first bracket
                     J.append(Job(b, "fork2", "1,0,0,0" if q else "2,0,0,0", dict(p, racer=1), env, workers=8))
+    # hash tables under two flavors in one process: both flavors' fork handlers are called, the shared worker's hooks nest
+    for follow in (0, 1):
+        J.append(Job("fk_2fl", "fork_two_flavors", "1,0,0,0,0", {"qs_attempts": 1, "wait_attempts": 1, "fork_follow": follow},
+                     {"VRT_MEMBARRIER": 2}, workers=8))
+    # the components this property's guarantee is built on, on the real code (checks/cross.py)
+    J += cross.gp_core(tier)
+    J += cross.sig_core(tier)
     return J
 
 
